@@ -55,7 +55,7 @@ func (a AnimSpec) String() string {
 }
 
 var animDurations = []int{0, 1, 40, 40, 100, 1 << 24 - 2, 1<<24 - 1}
-var animMuts = []string{"same", "pixel", "rect", "rect", "big", "most", "alphaonly", "semi", "small"}
+var animMuts = []string{"same", "pixel", "rect", "rect", "big", "most", "alphaonly", "semi", "small", "corners", "erase"}
 
 func GenAnimSpec(r *RNG, maxSide, maxFrames int, lossless bool, alphaPct int) AnimSpec {
 	a := AnimSpec{Seed: r.Next(), Lossless: lossless, ICCLen: -1, EXIFLen: -1, XMPLen: -1}
@@ -100,6 +100,8 @@ func GenAnimSpec(r *RNG, maxSide, maxFrames int, lossless bool, alphaPct int) An
 			switch a.Frames[i-1].Mut {
 			case "most", "big", "small", "rect":
 				f.Mut = "same" // a duplicate right after a structural decision of the encoder
+			case "corners", "semi", "pixel":
+				f.Mut = "erase" // pixels the previous sub-frame left untouched disappear
 			}
 		}
 		a.Frames = append(a.Frames, f)
@@ -211,6 +213,30 @@ func (a AnimSpec) Canvases() (inputs []image.Image, canvases []*image.NRGBA) {
 			p1, p2 := randPixel(r, "opaque"), randPixel(r, "opaque")
 			cur.SetNRGBA(x1, y1, p1)
 			cur.SetNRGBA(x2, y2, p2)
+		case "corners":
+			// two opposite corners change: the changed rectangle is exactly the canvas,
+			// everything inside it is unchanged
+			cur.SetNRGBA(0, 0, randPixel(r, "opaque"))
+			cur.SetNRGBA(w-1, h-1, randPixel(r, "opaque"))
+			cur.Pix[0] ^= 0x80
+			cur.Pix[len(cur.Pix)-4] ^= 0x80
+		case "erase":
+			// scattered pixels and one rectangle are wiped (to transparent when the
+			// animation has alpha, else to one flat colour)
+			wipe := color.NRGBA{}
+			if a.Alpha == "opaque" {
+				wipe = randPixel(r, "opaque")
+			}
+			for k := 0; k < 1+w*h/6; k++ {
+				cur.SetNRGBA(r.Intn(w), r.Intn(h), wipe)
+			}
+			rw, rh := 1+r.Intn(imax(1, w/2)), 1+r.Intn(imax(1, h/2))
+			x0, y0 := r.Intn(w-rw+1), r.Intn(h-rh+1)
+			for y := y0; y < y0+rh; y++ {
+				for x := x0; x < x0+rw; x++ {
+					cur.SetNRGBA(x, y, wipe)
+				}
+			}
 		case "small":
 			// an image smaller than the canvas: placed at (0,0) on a transparent canvas
 			sw, sh := 1+r.Intn(w), 1+r.Intn(h)
